@@ -25,7 +25,7 @@ import Dhcp.Client.Lease
   sees (other transaction id, dropped by the filters, lost in the hand-over
   between two tries) are NOT in the routed stream: in the timed machine they
   are `irr` observations, which never change a result
-  (`irr_ignored` in the lemmas).
+  (`refines_with_irrelevant` in the lemmas, `C13_call_unseen_ignored`).
 -/
 namespace Dhcp.Client.Refine
 open Dhcp.Client.Timed
@@ -63,11 +63,6 @@ context error, write error) and a call still running carry no packet. -/
 def answer (arr : List (Int × α)) : Option (Int × Outcome) → Option α
   | some (_, .resp i) => (arr[i]?).map (·.2)
   | _ => none
-
-/-- instant of the machine's return, if it has returned -/
-def retTime : Option (Int × Outcome) → Option Int
-  | some (t, _) => some t
-  | none => none
 
 /-- The retry budget `T·(2^n − 1)` of a call with `n ≥ 0` tries: the instant at
 which the last per-try deadline fires. -/
